@@ -17,6 +17,7 @@ ASSUMPTIONS = [
     "schedules are dispatcher-built on two independently built instances (own symbolic durations), compared complete and at every common prefix length",
 ]
 STUBS = ["max", "min", "int (dispatcher module only)"]
+XHAIR_PREFIX = "c15_"   # leaf kernels re-decided by CrossHair (vf/xhair/kernels.py)
 BUDGET = {"quick": 420, "thorough": 2400}
 MSETS = [[0], [1], [0, 1]]
 
